@@ -221,7 +221,10 @@ def gen_message(rng, kind):
         hs.append(("Connection", " ", rng.choice(["close", "keep-alive", "Keep-Alive"]), ""))
     if rng.random() < 0.3:
         hs.append(("Content-Type", rng.choice(OWS), rng.choice(["application/json", "text/plain; charset=utf-8", "text/html"]), ""))
-    stream = start + b"\r\n" + render_headers(hs) + b"\r\n" + wire
+    pre = b""
+    if kind == "rsp" and rng.random() < 0.08:
+        pre = b"HTTP/1.1 100 Continue\r\n" + rng.choice([b"", b"X-Wait: 1\r\n"]) + b"\r\n"
+    stream = pre + start + b"\r\n" + render_headers(hs) + b"\r\n" + wire
     expect = {"start": exp_start, "headers": lodict_items([(n, v) for n, o, v, t in hs]), "body": hx(body),
               "parms": parms, "trails": trails}
     return {"stream": stream, "expect": expect, "method": method, "needs_close": needs_close, "mode": mode}
@@ -242,12 +245,52 @@ class CHECK(core.Check):
     N_QUICK = 1500
     N_THOROUGH = 60000
     N_SEARCH = 3000
-    RULE = "see generate()"
-    TRUSTED = []
-    PARTIAL = []
-    TECHNIQUE = ""
-    LEVEL_TEXT = ""
-    LEVEL_NOTE = ""
+    RULE = ("well-formed requests (all 9 methods; origin, asterisk and absolute targets; HTTP/1.0 and 1.1) and responses "
+            "(statuses incl. 204/304, answers to HEAD, empty reason, optional 100-Continue preface) rendered from "
+            "abstract content: header lines `name:` OWS value OWS with OWS in {none, blank, blanks, tab}, duplicate and "
+            "latin-1 names/values; body by Content-Length, by chunks (hex sizes in several spellings, extensions with "
+            "and without values, last chunk with extensions, 0-2 trailer lines) or until close; followed by 0-20 bytes "
+            "of the next message; cut at 0-9 random positions (search: next to CR/LF); pipelined second message via "
+            "makeParser(); byte-level damage of such messages (30%) with lowered MAX_LINE_SIZE and close() for the "
+            "model/code tie; exhaustive: fixed short messages of every shape under every split into <= 3 pieces; "
+            "non-trivial = message parsed to the end without error from >= 2 pieces; distinct by (kind, stream, cuts)")
+    TRUSTED = ["correspondence: serving.Requestant / clienting.Respondent of the working tree (msg.extend + parse() per "
+               "piece, close(), makeParser()) vs the Lean model (driver engine 'httpmsg'): start line fields, headers in "
+               "order, chunked/length/persisted, body, chunk extension parms, trailers, ended/errored, escaped exception "
+               "class, unconsumed buffer",
+               "CPython bytes.find, str.split/strip/lower/partition on latin-1 text, int(str), int(str, 16); "
+               "urllib.parse.urlsplit / unquote (only `urlsplit raises ValueError` is modelled, for targets whose "
+               "netloc has no brackets and no non-ASCII characters)",
+               "the Requestant's incomer is a stub object with a .timeout attribute",
+               "the tree checked is /repo with fixes D19-parseline-earliest-eol, D16-parseleader-colon, "
+               "D29a-chunk-ext-unhashable, D29b-respondent-100-continue applied"]
+    PARTIAL = ["the theorems take as hypotheses what the parser's own line functions read in each line (ReqHead, RspHead, "
+               "Chunk.wf: parseRequestLine/parseStatusLine, headerLine folded over the header lines, chunkLine); "
+               "C29_header_ows and C29_request_line discharge them for canonically written header and request lines, "
+               "status lines and chunk size lines are discharged by evaluation in the examples only",
+               "lines are CRLF terminated, contain no bare CR/LF and are shorter than MAX_LINE_SIZE (at exactly "
+               "MAX_LINE_SIZE bytes + CR the code's LineTooLong test depends on whether the LF has arrived)",
+               "a response preceded by 100-Continue interim responses and pipelined messages after makeParser() are in "
+               "the model and in the correspondence runs but not in the theorems",
+               "responses with Content-Type text/event-stream (body handed to EventSource, see C33) and request targets "
+               "whose netloc has brackets or non-ASCII characters are explicitly outside the model ('unmodelled')"]
+    TECHNIQUE = ("Lean 4 theorems (generic script theorem for a resumable parser: a stream that is a sequence of segments "
+                 "each consumed whole and waited for on every proper prefix is parsed to the same state under every "
+                 "split; instantiated for start line, header lines, chunk size/data/end, trailers, fixed-length and "
+                 "until-close bodies; fuel adequacy by a measure) + differential correspondence")
+    LEVEL_TEXT = ("Full proof on the model of the repaired parsers, for every split of the stream into receives: a "
+                  "well-formed request or response with fixed-length body (C29_request_fixed_length, "
+                  "C29_response_fixed_length), chunked body with extensions and trailers (C29_request_chunked, "
+                  "C29_response_chunked) or body until close (C29_response_until_close) is parsed without error to "
+                  "exactly its start line fields, header dictionary, body, extension parameters and trailers, and the "
+                  "bytes after the message stay in the buffer; any two splits of such a stream give the same complete "
+                  "parser state (C29_split_independent); header lines are read the same with or without white space "
+                  "after the colon (C29_header_ows); request lines are read as their tokens (C29_request_line).")
+    LEVEL_NOTE = ("Trusted: Lean kernel; axioms propext, Classical.choice, Quot.sound; the hand transcription of "
+                  "httping/serving/clienting parsers validated by the correspondence runs; CPython str/bytes/int "
+                  "primitives and urlsplit. Line-level reading of status lines and chunk size lines enters the theorems "
+                  "as hypotheses about the model's own line functions. Holds for the tree with the fix patches D19, D16, "
+                  "D29a, D29b.")
 
     def _mk(self, kind, method, stream, cuts, rest=b"", close=False, expect=None, maxline=65536, nxt=False):
         c = {"kind": kind, "method": method, "max": maxline, "stream": hx(stream), "rest": hx(rest), "cuts": list(cuts),
@@ -273,6 +316,69 @@ class CHECK(core.Check):
             cuts = sorted(rng.sample(range(len(total) + 1), min(k, len(total) + 1)))
             yield self._mk(kind, m["method"], m["stream"], cuts, rest=rest, close=m["needs_close"], expect=m["expect"])
 
+    def _outside(self, kind, stream):
+        """inputs the model declares 'unmodelled' (kept out of the generated cases)"""
+        if kind == "req":
+            first = stream.split(b"\n", 1)[0]
+            return b"//" in first and any(c >= 128 or c in b"[]" for c in first)
+        return b"event-stream" in stream.lower()
+
+    FIXED = [
+        # (kind, method, stream, close, expect)
+        ("req", "GET", b"POST /u HTTP/1.1\r\nTransfer-Encoding:chunked\r\n\r\n2;a=b\r\nhi\r\n0\r\nT: 1\r\n\r\n", False,
+         {"start": ["POST", "/u", "11"], "headers": [["transfer-encoding", "chunked"]], "body": "6869",
+          "parms": [["a", "b"]], "trails": [["t", "1"]]}),
+        ("rsp", "GET", b"HTTP/1.0 200 OK\r\nA:b\r\n\r\nbody\r\n", True,
+         {"start": ["10", "200", "OK"], "headers": [["a", "b"]], "body": "626f64790d0a", "parms": None, "trails": None}),
+        ("rsp", "GET", b"HTTP/1.1 404 Not Found\r\nContent-Length: 2 \r\n\r\nno", False,
+         {"start": ["11", "404", "Not Found"], "headers": [["content-length", "2"]], "body": "6e6f", "parms": None,
+          "trails": None}),
+        ("rsp", "GET", b"HTTP/1.1 100 Continue\r\n\r\nHTTP/1.1 200 OK\r\nContent-Length:1\r\n\r\nz", False,
+         {"start": ["11", "200", "OK"], "headers": [["content-length", "1"]], "body": "7a", "parms": None, "trails": None}),
+        ("rsp", "GET", b"HTTP/1.1 200 OK\r\ntransfer-encoding: Chunked\r\n\r\n1\r\nx\r\n00;q\r\n\r\n", False,
+         {"start": ["11", "200", "OK"], "headers": [["transfer-encoding", "Chunked"]], "body": "78",
+          "parms": [["q", None]], "trails": None}),
+        ("req", "GET", b"PUT /a HTTP/1.1\r\nContent-Length:3\r\nHost: h\r\n\r\nabc", False,
+         {"start": ["PUT", "/a", "11"], "headers": [["content-length", "3"], ["host", "h"]], "body": "616263",
+          "parms": None, "trails": None}),
+        ("req", "GET", b"GET / HTTP/1.0\r\nA:\r\n\r\n", False,
+         {"start": ["GET", "/", "10"], "headers": [["a", ""]], "body": "-", "parms": None, "trails": None}),
+        ("rsp", "HEAD", b"HTTP/1.1 200 OK\r\nContent-Length: 5\r\n\r\n", False,
+         {"start": ["11", "200", "OK"], "headers": [["content-length", "5"]], "body": "-", "parms": None, "trails": None}),
+        ("rsp", "GET", b"HTTP/1.1 204 No Content\r\n\r\n", False,
+         {"start": ["11", "204", "No Content"], "headers": [], "body": "-", "parms": None, "trails": None}),
+    ]
+
+    def exhaustive(self, tier):
+        fixed = self.FIXED if tier == "thorough" else self.FIXED[:4]
+        for kind, method, stream, close, expect in fixed:
+            rest = b"" if close else b"NX"
+            n = len(stream + rest)
+            for i in range(n + 1):
+                for j in range(i, n + 1):
+                    yield self._mk(kind, method, stream, [i, j], rest=rest, close=close, expect=expect)
+
+    def search(self, rng, n, tier):
+        for i in range(n):
+            kind = rng.choice(["req", "rsp"])
+            m = gen_message(rng, kind)
+            rest = b"" if m["needs_close"] else rng.choice([b"", b"\r\n", b"GET / HTTP/1.1\r\n"])
+            total = m["stream"] + rest
+            pos = [k for k in range(1, len(total)) if total[k - 1:k] in b"\r\n" or total[k:k + 1] in b"\r\n"]
+            cuts = sorted(set(rng.sample(pos, min(len(pos), rng.choice([1, 2, 3, 4])))))
+            yield self._mk(kind, m["method"], m["stream"], cuts, rest=rest, close=m["needs_close"], expect=m["expect"])
+
+    def shrink_candidates(self, case):
+        cuts = case["cuts"]
+        for i in range(len(cuts)):
+            c = dict(case); c["cuts"] = cuts[:i] + cuts[i + 1:]
+            yield c
+        if case.get("rest", "-") != "-":
+            c = dict(case); c["rest"] = "-"
+            total = len(unhx(case["stream"]))
+            c["cuts"] = [x for x in cuts if x <= total]
+            yield c
+
     def _mutated(self, rng):
         """byte-level damage to a valid message: the model must follow the code there too"""
         kind = rng.choice(["req", "rsp"])
@@ -295,6 +401,8 @@ class CHECK(core.Check):
         extra = rng.random()
         closeit = m["needs_close"] or extra < 0.15
         total = bytes(b)
+        if self._outside(kind, total):
+            total = m["stream"]
         k = rng.choice([0, 1, 2, 3])
         cuts = sorted(rng.sample(range(len(total) + 1), min(k, len(total) + 1)))
         return self._mk(kind, m["method"], total, cuts, close=closeit, maxline=rng.choice([65536, 65536, 65536, 40, 12]))
@@ -369,4 +477,8 @@ class CHECK(core.Check):
         return out[0].startswith("state escaped=~ ended=T errored=F") and len(case["cuts"]) >= 1
 
     def bucket(self, case, out):
-        return "%s/%s" % (case["kind"], out[0])
+        st = out[0].replace("state ", "")
+        fl = out[2] if len(out) > 2 else ""
+        mode = "chunked" if "chunked=T" in fl else "length" if "length=N" not in fl else "nolength"
+        return "%s/%s/pieces%d/%s%s" % (case["kind"], mode, min(len(case["cuts"]) + 1, 4), st,
+                                        "/expect" if "expect" in case else "")
